@@ -63,6 +63,31 @@ func dslCorr(c *Ctx, stream, text string) (out string) {
 	return out
 }
 
+// dslCorrScoped: as dslCorr, and asks the Lean driver whether the real parse tree meets the hypothesis
+// (`wellScoped`) of the no-panic theorem of Props/C08.lean. A tree outside it is not a disagreement
+// (the differential check still covers it); it is counted, with a sample, in the evidence.
+func dslCorrScoped(c *Ctx, stream, text string) {
+	cleaned := harnessClean(text)
+	tree, _, errs := parseTree(cleaned)
+	out, _, _ := realParse(text)
+	c.D.Add("corr:parser/"+stream, L("dsl2model", Q(text), Q(cleaned), tree, canonErrs(errs)), out, map[string]any{"dsl": text})
+	kind := "error_free_trees"
+	if len(errs) > 0 {
+		kind = "error_recovered_trees"
+	}
+	c.D.AddF("hyp:scoped/"+stream, L("scoped", tree), "(scoped true)", map[string]any{"dsl": text}, func(lean string) bool {
+		if lean == "(scoped false)" {
+			c.Dist("hypothesis_scoped_false:" + kind)
+			if c.R.Distribution["hypothesis_scoped_false:"+kind] <= 3 {
+				c.Note("tree outside the hypothesis of walk_no_panic (" + kind + "): " + trunc(text, 300))
+			}
+			return true
+		}
+		return false
+	})
+	c.Dist("hypothesis_scoped_evaluated:" + kind)
+}
+
 // canonical model with condition expressions compared modulo surrounding whitespace
 func canonModelTrimExpr(m *openfgav1.AuthorizationModel) string {
 	c := proto.Clone(m).(*openfgav1.AuthorizationModel)
